@@ -9,6 +9,25 @@ TRUSTED_COMMON = [
 ]
 
 PROPS = {
+    "C11": {
+        "level": "Refinement: for every sequence of Clients / IPDB operations with non-decreasing clocks the results of the Go data structure "
+                 "(map with two keys per record, pointer identity, lazy per-key expiry) equal those of a reference table with at most one live "
+                 "binding per address and per client (clients_refine, ipdb_refine, table_exclusive), plus the iff-characterisations of update and "
+                 "the FindIP postconditions — Lean theorems for all histories; tied to the code by exhaustive small-scope and random differential "
+                 "runs of the real clients/ipdb packages under a virtual clock.",
+        "props": ["C11"],
+        "streams": [{"test": "TestClients", "names": ["clients"], "timeout": 600}, {"test": "TestIpdb", "names": ["ipdb"], "timeout": 600}],
+        "rule": "Clients API: ALL operation sequences up to length 3 (quick; 4 thorough, depth 4 over a reduced alphabet) over 2 addresses x 2 clients x "
+                "lifetimes {-1,+1,+5} x clock steps {0,2} (72 symbols), DFS with shared prefixes; random sequences up to length 200 over 3 addresses x "
+                "3 clients (one empty id) x lifetimes {-1,0,1,5} x steps {0,1,2,7}. IPDB API under testing/synctest: random scripts of "
+                "update/lookup/addPermanent/find/setDynamicRange/disable with clock jumps around 15 s / 60 s / 1 h; FindIP's probe callback records the "
+                "candidate order and answers from a conflict table. Non-trivial = the operation hit a bound record or succeeded.",
+        "trusted": ["Modelled, not verified: Go maps as total functions Key -> Option index, pointers as indices into an append-only list; time.Time as "
+                    "Int nanoseconds; sync.RWMutex (mutual exclusion) — lock discipline pinned by Expect.c01_c09_c11_ipdb_lock_discipline",
+                    "rand.Perm returns a permutation (the model is driven by the observed probe order, the theorems quantify over all permutations)"],
+        "assumptions": ["clock readings are non-decreasing", "networks given as CIDR prefixes (ParseCIDR); /31 excluded from the IPDB stream "
+                        "(empty managed range; FindIP would call rand.Perm(2^32) — unreachable through server.New)"],
+    },
     "C12": {
         "level": "DHCP codec: decode(assemble m) = m for every representable message, acceptance of arbitrary bytes iff the RFC 2131 layout + RFC 2132 "
                  "option-area grammar, typed accessors exact, no out-of-range access — Lean theorems over all byte strings/messages; tied to the Go "
